@@ -366,7 +366,7 @@ def rule_pass_through_at_endpoint(chk, prog):
                  "horizontal scan segment that survives (the right one when there is one -- the list merges the left one into it -- else "
                  "the left one) carries, besides the end point's own vertex, an ordinary vertex AT the end point's position.  Searches do "
                  "not pass THROUGH end-point vertices of other connectors, so without it every other connector is barred from that "
-                 "grid point and detours", floor=6)
+                 "grid point and detours; the same is demanded for an end point that sees only up / down (a known finding)", floor=8)
     fn = prog.fn("Avoid::processEventVert")
     ev_types = {}
     for e in prog.enums.values():
@@ -380,7 +380,7 @@ def rule_pass_through_at_endpoint(chk, prog):
         raise AnalysisBroken("processEventVert: connection-point branch / locals not found")
     F = Fraction
     UP, DOWN, LEFT, RIGHT = 1, 2, 4, 8
-    for dirs in (LEFT, RIGHT, LEFT | RIGHT, LEFT | UP, RIGHT | DOWN, LEFT | RIGHT | UP | DOWN):
+    for dirs in (LEFT, RIGHT, LEFT | RIGHT, LEFT | UP, RIGHT | DOWN, LEFT | RIGHT | UP | DOWN, UP, UP | DOWN):
         r.count()
         made = []
 
@@ -421,6 +421,12 @@ def rule_pass_through_at_endpoint(chk, prog):
             left = [s_ for s_ in made if s_.f["begin"] == F(0) and s_.f["finish"] == F(50)]
             if bool(right) != bool(dirs & RIGHT) or bool(left) != bool(dirs & LEFT):
                 bad = "scan segments %s for visibility mask %d" % ([(str(s_.f["begin"]), str(s_.f["finish"])) for s_ in made], dirs)
+            elif not (dirs & (LEFT | RIGHT)):
+                # no horizontal visibility: the point segment at the end point is all there is on this scan line
+                point = [s_ for s_ in made if s_.f["begin"] == F(50) and s_.f["finish"] == F(50)]
+                through = [v_ for s_ in point for v_ in s_.f["vertInfs"].items if v_ is not cv and v_.f["point"].f["x"] == F(50) and v_.f["point"].f["y"] == F(70)]
+                if not through:
+                    bad = "an end point without horizontal visibility gets only its own vertex at its position: no other connector can bend at or run through that point"
             else:
                 keep = right[0] if right else left[0]
                 through = [v_ for v_ in keep.f["vertInfs"].items if v_ is not cv and v_.f["point"].f["x"] == F(50) and v_.f["point"].f["y"] == F(70)]
